@@ -285,9 +285,9 @@ type checker struct {
 	c       Case
 	classes map[string]bool
 	// per-case accounting
-	excluded                                       string
+	excluded string
 	// rootsSeen[r]: in-memory roots replica r's current tree object has had (reset on reopen)
-	rootsSeen map[int][]string
+	rootsSeen                                      map[int][]string
 	probes, nontrivialProbes, batchesSeen, applied int
 	sigParts                                       []string
 }
